@@ -97,7 +97,19 @@ func ReadProgram(reader Reader, name string, r io.Reader) (Program, error) {
 	if err != nil {
 		return Program{}, err
 	}
-	return Program{exprs: exprs}, nil
+	return Program{exprs: sealExprs(exprs)}, nil
+}
+
+// sealExprs seals every expression a reader returned.  The standard reader
+// has sealed them already (SealAST is idempotent and stops at a sealed node),
+// but a Program is shared and re-evaluated whatever reader produced it: the
+// format-preserving reader and embedder-written readers return unsealed
+// trees, which evaluation would otherwise modify in place.
+func sealExprs(exprs []*LVal) []*LVal {
+	for _, expr := range exprs {
+		expr.SealAST()
+	}
+	return exprs
 }
 
 // ReadLocationProgram is ReadProgram for a LocationReader, assigning physical
@@ -110,7 +122,7 @@ func ReadLocationProgram(reader LocationReader, name, loc string, r io.Reader) (
 	if err != nil {
 		return Program{}, err
 	}
-	return Program{exprs: exprs}, nil
+	return Program{exprs: sealExprs(exprs)}, nil
 }
 
 // ParseProgram parses the contents of r using env.Runtime.Reader and seals
